@@ -153,15 +153,22 @@ fn judge(case: &Case) -> Option<Fail> {
 
 // ------------------------------------------------------------------ string classes
 
-const HOSTILE_STRINGS: [&str; 22] = [
+const HOSTILE_STRINGS: [&str; 29] = [
     "a;b", "x && y", "p || q", "end}", "{start", "f(x", "y)", "now then go", "say when ok", "the rule r1", "see //x", "a /* b",
     "a+=b", "k=v", "a,b", "a+b", "co-op", "naïve café", "salience 9", "no-loop", "it's", "lock-on-active",
+    // whitespace inside a literal is content too
+    "two  blanks", "tab\there", "nb\u{a0}sp", "em\u{2003}space", " leading blank", "trailing blank ", "a */ b",
 ];
 
 fn string_class(s: &str) -> Option<&'static str> {
     for (needle, class) in [
+        ("  ", "run-of-blanks"),
+        ("\t", "tab"),
+        ("\u{a0}", "non-ascii-space"),
+        ("\u{2003}", "non-ascii-space"),
         ("//", "line-comment-marker"),
         ("/*", "block-comment-marker"),
+        ("*/", "block-comment-end-marker"),
         ("+=", "plus-equals"),
         ("&&", "and-operator"),
         ("||", "or-operator"),
@@ -191,6 +198,12 @@ fn string_class(s: &str) -> Option<&'static str> {
     }
     if !s.is_ascii() {
         return Some("non-ascii");
+    }
+    if s.starts_with(' ') || s.ends_with(' ') {
+        return Some("blank-at-the-edge");
+    }
+    if s.starts_with('*') || s.ends_with('*') || s.is_empty() {
+        return Some("asterisk-at-the-edge-or-empty");
     }
     None
 }
@@ -270,6 +283,7 @@ fn tags(case: &Case, fail: &Fail) -> Vec<String> {
             CommentKind::Line => "line-comment",
             CommentKind::Trailing => "trailing-line-comment",
             CommentKind::Block => "block-comment",
+            CommentKind::BlockTight => "block-comment-tight",
         };
         match string_class(&c.text) {
             Some(cl) => t.insert(format!("{}-containing:{}", kind, cl)),
@@ -775,6 +789,9 @@ fn gen_rule(rng: &mut Rng, idx: usize, allow_negative_salience: bool) -> RuleAst
     }
 }
 
+/// texts of tight block comments `/*text*/`: doc-comment and banner shapes
+const TIGHT_COMMENT_TEXTS: [&str; 8] = ["", "*", "**", "* doc *", "* banner **", "*** box ***", "**** box ****", "x"];
+
 const COMMENT_TEXTS: [&str; 10] = [
     "check customer tier", "TODO", "Greater than", "apply the discount; then stop", "this rule fires first", "see rule R0 below", "closing } later", "when in doubt", "a && b", "50% off",
 ];
@@ -822,11 +839,16 @@ fn gen_case(rng: &mut Rng) -> Case {
                 text: if rng.chance(1, 2) { COMMENT_TEXTS[rng.below(3)].to_string() } else { rng.pick(&COMMENT_TEXTS).to_string() },
                 slot: rng.below(1000),
             });
+            if rng.chance(1, 4) {
+                let c = comments.last_mut().unwrap();
+                c.kind = CommentKind::BlockTight;
+                c.text = rng.pick(&TIGHT_COMMENT_TEXTS).to_string();
+            }
         }
     }
     // comments that need line structure make no sense on a one-line layout
     if features.contains(&LayoutFeature::OneLine) {
-        comments.retain(|c| c.kind == CommentKind::Block);
+        comments.retain(|c| matches!(c.kind, CommentKind::Block | CommentKind::BlockTight));
     }
     Case {
         rules,
@@ -898,6 +920,11 @@ fn feature_sweep() -> Vec<Case> {
             for slot in 0..12usize {
                 out.push(plain(base.clone(), LayoutSpec { features: vec![], mixed: false, seed: 0, comments: vec![Comment { kind: kind.clone(), text: text.to_string(), slot }] }));
             }
+        }
+    }
+    for text in TIGHT_COMMENT_TEXTS {
+        for slot in 0..12usize {
+            out.push(plain(base.clone(), LayoutSpec { features: vec![], mixed: false, seed: 0, comments: vec![Comment { kind: CommentKind::BlockTight, text: text.to_string(), slot }] }));
         }
     }
     // attributes: each alone, each salience value, both spellings
